@@ -9,6 +9,7 @@ import Mqtt.Driver.Topics
 import Mqtt.Driver.Broker
 import Mqtt.Driver.KeepAlive
 import Mqtt.Driver.Client
+import Mqtt.Driver.Conc
 
 namespace Mqtt.Driver
 
@@ -36,6 +37,7 @@ def dispatch (st : DState) (line : String) : DState × String × String :=
   | "client" :: rest =>
     let (a, m, s) := Client.handle st.client rest
     ({ st with client := a }, m, s)
+  | "conc" :: rest => let o := Conc.handle rest; (st, o, o)
   | [] => (st, "", "")
   | _ => (st, "bad-core", "bad-core")
 
